@@ -1,3 +1,194 @@
+/-
+  C12 [T2]: the coded three-term recurrence, its derivative formula, the middle root of odd rules,
+  the one-point rule.
+-/
 import LpProofs.C12.Lemmas
+import Mathlib.Algebra.Polynomial.Derivative
+import Mathlib.Algebra.Polynomial.Eval.Defs
+import Mathlib.Tactic.LinearCombination
 namespace Lp.C12
+
+theorem legPair_zero' (z : Rat) : legPair z 0 = (1, 0) := rfl
+
+theorem legPair_succ (z : Rat) (n : Nat) :
+    legPair z (n + 1) =
+      (((2 * (n : Rat) + 1) * z * (legPair z n).1 - (n : Rat) * (legPair z n).2) / ((n : Rat) + 1), (legPair z n).1) := rfl
+
+/-! ### values at 0: `P_{2k}(0) ≠ 0`, `P_{2k+1}(0) = 0` -/
+
+theorem legPair_at_zero (k : Nat) :
+    ((legPair 0 (2 * k)).1 ≠ 0 ∧ (legPair 0 (2 * k)).2 = 0) ∧
+    ((legPair 0 (2 * k + 1)).1 = 0 ∧ (legPair 0 (2 * k + 1)).2 ≠ 0) := by
+  induction k with
+  | zero =>
+    refine ⟨⟨by simp [legPair_zero'], by simp [legPair_zero']⟩, ?_⟩
+    rw [legPair_succ]; simp [legPair_zero']
+  | succ k ih =>
+    obtain ⟨⟨_, _⟩, ⟨h3, h4⟩⟩ := ih
+    have e : 2 * (k + 1) = (2 * k + 1) + 1 := by ring
+    have pos : ((2 * k + 1 : Nat) : Rat) + 1 ≠ 0 := by positivity
+    have pos' : ((2 * k + 1 : Nat) : Rat) ≠ 0 := by positivity
+    have A : (legPair 0 (2 * (k + 1))).1 ≠ 0 ∧ (legPair 0 (2 * (k + 1))).2 = 0 := by
+      rw [e, legPair_succ]
+      refine ⟨?_, h3⟩
+      simp only [h3, mul_zero, zero_mul, zero_sub]
+      exact div_ne_zero (neg_ne_zero.mpr (mul_ne_zero pos' h4)) pos
+    refine ⟨A, ?_⟩
+    rw [legPair_succ]
+    refine ⟨?_, A.1⟩
+    simp [A.2]
+
+/-- **legendre_odd_zero**: `P_n(0) = 0` for odd `n`, and then `pp = n·P_{n-1}(0) ≠ 0` -/
+theorem legendre_odd_zero (k : Nat) :
+    legendreP (2 * k + 1) 0 = 0 ∧ legendreDeriv (2 * k + 1) 0 ≠ 0 := by
+  obtain ⟨_, ⟨h3, h4⟩⟩ := legPair_at_zero k
+  refine ⟨h3, ?_⟩
+  unfold legendreDeriv ppOf legendreP legendrePrev
+  rw [h3]
+  have pos : ((2 * k + 1 : Nat) : Rat) ≠ 0 := by positivity
+  simp only [mul_zero, zero_sub, zero_mul]
+  exact div_ne_zero (mul_ne_zero pos (neg_ne_zero.mpr h4)) (by norm_num)
+
+theorem guessArg_middle (k : Nat) : guessArg (2 * k + 1) k = 1 / 2 := by
+  unfold guessArg
+  have pos : ((2 * k + 1 : Nat) : Rat) + 1 / 2 ≠ 0 := by positivity
+  rw [div_eq_iff pos]
+  push_cast; ring
+
+/-- **newton_middle_root**: for odd `n = 2k+1` the start value of the middle root (`i = k`) is
+    `cos(π/2) = 0`, the exact Newton loop stops at once and returns `z = 0` — so the hypothesis of
+    `gl_mirror`/`gl_reversed` holds for the rule the model computes. -/
+theorem newton_middle_root (cospi : Rat → Rat) (hc : cospi (1 / 2) = 0) (eps : Rat) (heps : 0 ≤ eps) (k fuel : Nat) :
+    newtonLoop id eps (2 * k + 1) (fuel + 1) (cospi (guessArg (2 * k + 1) k))
+      = some (0, legendreDeriv (2 * k + 1) 0) := by
+  obtain ⟨h0, hpp⟩ := legendre_odd_zero k
+  rw [guessArg_middle, hc]
+  unfold newtonLoop
+  have e1 : ¬ ((0 : Rat) * 0 - 1 = 0) := by norm_num
+  have hpp' : ¬ (id (ppOf (2 * k + 1) 0 (legPairR id 0 (2 * k + 1)).1 (legPairR id 0 (2 * k + 1)).2) = 0) := hpp
+  have hp1 : (legPairR id 0 (2 * k + 1)).1 = 0 := h0
+  simp only [e1, if_false, hpp']
+  have : rabs (id (0 - (legPairR id 0 (2 * k + 1)).1 / id (ppOf (2 * k + 1) 0 (legPairR id 0 (2 * k + 1)).1 (legPairR id 0 (2 * k + 1)).2)) - 0) ≤ eps := by
+    rw [hp1]; simpa [rabs] using heps
+  rw [if_pos this, hp1]
+  simp [legendreDeriv, legendreP, legendrePrev, legPair, hp1]
+
+/-! ### the recurrence as polynomials and the derivative formula -/
+
+open Polynomial
+
+/-- `(P_n, P_{n-1})` of the coded recurrence as polynomials over ℚ -/
+noncomputable def legPolyPair : Nat → ℚ[X] × ℚ[X]
+  | 0 => (1, 0)
+  | n + 1 => (C (1 / ((n : ℚ) + 1)) * ((2 * C (n : ℚ) + 1) * X * (legPolyPair n).1 - C (n : ℚ) * (legPolyPair n).2),
+              (legPolyPair n).1)
+
+noncomputable def legPoly (n : Nat) : ℚ[X] := (legPolyPair n).1
+
+theorem legPolyPair_eval (n : Nat) (z : ℚ) :
+    ((legPolyPair n).1.eval z, (legPolyPair n).2.eval z) = legPair z n := by
+  induction n with
+  | zero => simp [legPolyPair, legPair_zero']
+  | succ n ih =>
+    have h1 : (legPolyPair n).1.eval z = (legPair z n).1 := congrArg Prod.fst ih
+    have h2 : (legPolyPair n).2.eval z = (legPair z n).2 := congrArg Prod.snd ih
+    rw [legPair_succ]
+    simp only [legPolyPair, eval_mul, eval_sub, eval_add, eval_C, eval_X, eval_one, eval_ofNat, h1, h2]
+    congr 1
+    ring
+
+/-- the model's `legendreP n z` is the value of the polynomial `legPoly n` -/
+theorem legendreP_eq_eval (n : Nat) (z : ℚ) : legendreP n z = (legPoly n).eval z :=
+  (congrArg Prod.fst (legPolyPair_eval n z)).symm
+
+/-- one induction step, as an identity in any commutative ring: from
+    `X P' − Q' = c P` and `(X²−1) P' = c (X P − Q)` for `(P, Q) = (P_n, P_{n-1})` to the same for
+    `(P_{n+1}, P_n)`, where `d (c+1) = 1`. -/
+theorem leg_step_ring {R : Type} [CommRing R] (X c d P P' Q Q' : R) (hd : d * (c + 1) = 1)
+    (I3 : X * P' - Q' = c * P) (I5 : (X * X - 1) * P' = c * (X * P - Q)) :
+    let Pn := d * ((2 * c + 1) * X * P - c * Q)
+    let Pn' := d * ((2 * c + 1) * (P + X * P') - c * Q')
+    X * Pn' - P' = (c + 1) * Pn ∧ (X * X - 1) * Pn' = (c + 1) * (X * Pn - P) := by
+  intro Pn Pn'
+  have I4 : Pn' = (c + 1) * P + X * P' := by
+    show d * ((2 * c + 1) * (P + X * P') - c * Q') = (c + 1) * P + X * P'
+    linear_combination ((c + 1) * P + X * P') * hd + d * c * I3
+  have M : (c + 1) * Pn = (2 * c + 1) * X * P - c * Q := by
+    show (c + 1) * (d * ((2 * c + 1) * X * P - c * Q)) = (2 * c + 1) * X * P - c * Q
+    linear_combination ((2 * c + 1) * X * P - c * Q) * hd
+  constructor
+  · rw [I4, M]; linear_combination I5
+  · rw [I4]; linear_combination X * I5 - X * M
+
+theorem legPoly_identities (n : Nat) :
+    X * derivative (legPolyPair n).1 - derivative (legPolyPair n).2 = C (n : ℚ) * (legPolyPair n).1 ∧
+    (X * X - 1) * derivative (legPolyPair n).1 = C (n : ℚ) * (X * (legPolyPair n).1 - (legPolyPair n).2) := by
+  induction n with
+  | zero => simp [legPolyPair]
+  | succ n ih =>
+    obtain ⟨I3, I5⟩ := ih
+    have hd : C (1 / ((n : ℚ) + 1)) * (C (n : ℚ) + 1) = 1 := by
+      have pos : (n : ℚ) + 1 ≠ 0 := by positivity
+      rw [show (C (n : ℚ) + 1 : ℚ[X]) = C ((n : ℚ) + 1) by simp, ← C_mul]
+      rw [one_div, inv_mul_cancel₀ pos]; simp
+    have key := leg_step_ring (X : ℚ[X]) (C (n : ℚ)) (C (1 / ((n : ℚ) + 1))) (legPolyPair n).1
+      (derivative (legPolyPair n).1) (legPolyPair n).2 (derivative (legPolyPair n).2) hd I3 I5
+    have hc : (C ((n + 1 : Nat) : ℚ) : ℚ[X]) = C (n : ℚ) + 1 := by push_cast; simp
+    have hder : derivative (legPolyPair (n + 1)).1
+        = C (1 / ((n : ℚ) + 1)) * ((2 * C (n : ℚ) + 1) * ((legPolyPair n).1 + X * derivative (legPolyPair n).1)
+            - C (n : ℚ) * derivative (legPolyPair n).2) := by
+      simp only [legPolyPair, derivative_mul, derivative_sub, derivative_add, derivative_C, derivative_X,
+        derivative_one, derivative_ofNat, zero_mul, mul_zero, zero_add, add_zero, mul_one]
+      ring
+    simp only [] at key
+    rw [hc, hder]
+    exact key
+
+/-- **legendre_derivative**: for the polynomial sequence of the coded recurrence,
+    `(z²−1)·P_n'(z) = n (z P_n(z) − P_{n−1}(z))`; hence where `z² ≠ 1` the quantity `pp` of the C++
+    is exactly the derivative `P_n'(z)` that Newton's method needs. -/
+theorem legendre_derivative (n : Nat) (z : ℚ) :
+    (z * z - 1) * (derivative (legPoly n)).eval z = (n : ℚ) * (z * legendreP n z - legendrePrev n z) ∧
+    (z * z - 1 ≠ 0 → legendreDeriv n z = (derivative (legPoly n)).eval z) := by
+  have h := congrArg (Polynomial.eval z) (legPoly_identities n).2
+  have h1 : (legPolyPair n).1.eval z = legendreP n z := congrArg Prod.fst (legPolyPair_eval n z)
+  have h2 : (legPolyPair n).2.eval z = legendrePrev n z := congrArg Prod.snd (legPolyPair_eval n z)
+  simp only [eval_mul, eval_sub, eval_X, eval_one, eval_C, h1, h2] at h
+  refine ⟨h, ?_⟩
+  intro hz
+  unfold legendreDeriv ppOf
+  rw [← h]
+  unfold legPoly
+  exact mul_div_cancel_left₀ _ hz
+
+example : legendreDeriv 2 (1 / 2) = 3 / 2 := by decide +kernel
+
+/-! ### n = 1 -/
+
+/-- **gl_exact_n1**: with the root values the exact iteration produces for `n = 1` (`z = 0`, `pp = 1`)
+    the rule is the midpoint rule and integrates every polynomial of degree ≤ 1 = 2n−1 exactly, on
+    every interval in either orientation. -/
+theorem gl_exact_n1 (a b c0 c1 : Rat) (z pp : Nat → Rat) (hz : z 0 = 0) (hp : pp 0 = 1) :
+    glSum (fun x => c0 + c1 * x) 1 a b z pp = c0 * (b - a) + c1 * (b * b - a * a) / 2 := by
+  have hn : node 1 a b z pp 0 = (a + b) / 2 := by
+    unfold node
+    rw [glTable_closed 1 a b z pp 0 (by norm_num)]
+    simp [half, hz, xMiddle]; ring
+  have hw : weight 1 a b z pp 0 = b - a := by
+    unfold weight
+    rw [glTable_closed 1 a b z pp 0 (by norm_num)]
+    simp [rootIdx, half, hz, hp, weightOf, xHalfWidth]
+  unfold glSum
+  simp [List.range_succ, hn, hw]
+  ring
+
+/-- the root values assumed by `gl_exact_n1` are those of the exact Newton loop -/
+theorem newton_n1 (cospi : Rat → Rat) (hc : cospi (1 / 2) = 0) (eps : Rat) (heps : 0 ≤ eps) (fuel : Nat) :
+    newtonLoop id eps 1 (fuel + 1) (cospi (guessArg 1 0)) = some (0, 1) := by
+  have h := newton_middle_root cospi hc eps heps 0 fuel
+  simp only [Nat.mul_zero, Nat.zero_add] at h
+  rw [h]
+  have : legendreDeriv 1 0 = 1 := by decide +kernel
+  rw [this]
+
 end Lp.C12
